@@ -1,5 +1,5 @@
 (* C13 — domain-name text form, equality, hashing and limits are coherent. *)
-From DNS Require Import Model.Values Model.Dec Proofs.C13.
+From DNS Require Import Model.Values Model.Dec Model.Enc Spec.Names Proofs.C13 Proofs.NameLayer Proofs.C13enc.
 
 (* the vocabulary of the statements below, spelled out *)
 Theorem C13_defs :
@@ -111,6 +111,20 @@ Definition s_de : bytes := [100; 101].
 Definition s_DE : bytes := [68; 69].
 Definition s_example : bytes := [101; 120; 97; 109; 112; 108; 101].
 Definition s_org : bytes := [111; 114; 103].
+
+(* the encoder treats equal names as interchangeable compression targets and never changes a name's
+   octets other than ASCII case: whatever the name writer emits for n (literal labels and/or a pointer
+   to an earlier name) expands, in every buffer that agrees on the name octets, to labels that are
+   pairwise ASCII-case-insensitively equal to those of n *)
+Theorem C13_compress_case_only : forall s mask (n : name),
+  InvM s mask -> name_ok n -> lenN (e_buf s) + name_wire_len n <= 65536 ->
+  exists s' w,
+    enc_domain_name n s = EOk tt s' /\ e_buf s' = e_buf s ++ w /\
+    forall b', agree (mask ++ repeat true (length w)) (e_buf s') b' ->
+      exists x, expand 16 b' (lenN (e_buf s)) = Some x /\
+                Forall2 (Forall2 ascii_ci_eq) n (x_name x).
+Proof. exact compress_case_only_proof. Qed.
+Print Assumptions C13_compress_case_only.
 
 Example C13_ex_eq : name_eqb [s_AbC; s_de] [s_aBc; s_DE] = true.
 Proof. vm_compute. reflexivity. Qed.
